@@ -1,0 +1,10 @@
+// Copyright 2018 The go-python Authors.  All rights reserved.
+// Use of this source code is governed by a BSD-style
+// license that can be found in the LICENSE file.
+
+//go:build !verif
+
+package compile
+
+// Without the build tag `verif` the package has no verification entry points
+// (see verif_on.go: VerifCompileAst).
